@@ -145,11 +145,14 @@ def impl(case):
     root = a.get_android_manifest_xml()
     s = lambda l: sorted(l, key=lambda x: (x is None, x or ""))
     uses = s((n or "") + "\x00" + ("\x00" if mx is None else "\x01" + chr(mx)) for n, mx in a.uses_permissions)
-    return {"tree": walk(root),
-            "out": [a.get_package(), a.get_androidversion_code(), a.get_androidversion_name(), s(set(a.get_permissions())), uses,
+    def observations():
+        return [a.get_package(), a.get_androidversion_code(), a.get_androidversion_name(), s(set(a.get_permissions())), uses,
                     s(a.get_activities()), s(a.get_services()), s(a.get_receivers()), s(a.get_providers()), s(a.get_main_activities()), a.get_main_activity(),
                     a.get_min_sdk_version(), a.get_target_sdk_version(), a.get_max_sdk_version(), a.get_effective_target_sdk_version(),
-                    s(a.get_features()), s(a.get_libraries())],
+                    s(a.get_features()), s(a.get_libraries())]
+    first = observations()
+    return {"tree": walk(root),
+            "out": first, "again_same": observations() == first,
             "main": a.get_main_activity(), "perm_dups": len(a.get_permissions()) - len(set(a.get_permissions()))}
 
 
@@ -185,6 +188,8 @@ def oracle(case, res):
     if isinstance(res, Err):
         return "APK analysis failed: %s %s" % (res.name, res.msg[:150])
     m, out = case, res["out"]
+    if not res.get("again_same", True):
+        return "asked a second time, the same APK object gives other answers to the manifest queries"
     pkg = m["package"]
     mn, tg, mx = m["sdk"]
     want = [pkg, str(m["vcode"]), m["vname"], sorted({p for p, _, _ in m["perms"]}),
